@@ -24,7 +24,7 @@ func TestMain(m *testing.M) { pbt.Main(m) }
 func cfg(str gen.StrGen) *gen.Cfg {
 	g := gen.Default(str).Boost(4, "uopt", "uoptleaf", "dnswrap", "dnsleaf", "uleafnc", "uwraptransparent", "mark", "sentinel")
 	// also a multi-error type that has a Cause() method besides Unwrap() []error
-	g = g.With("umulticauser", "umulticauser", "umultiis")
+	g = g.With("umulticauser", "umulticauser", "umultiis", "uzeroa", "uzeroa", "uzerob", "uzerob", "ucodedanon")
 	g.WMulti = 2
 	return g
 }
